@@ -18,6 +18,7 @@ import (
 	"strings"
 	"sync"
 	"testing"
+	"time"
 
 	"pgregory.net/rapid"
 )
@@ -480,4 +481,84 @@ func jsonBytes(b []byte) string {
 		return fmt.Sprintf("%q...(%d bytes)", b[:600], len(b))
 	}
 	return fmt.Sprintf("%q", b)
+}
+
+// ---- stall-aware waiting ------------------------------------------------------
+//
+// Every wait whose expiry turns into a verdict uses patience instead of the wall
+// clock: only time during which this process was demonstrably running counts.
+// The waiter wakes every patienceTick; a wake-up that comes later than
+// patienceCap after the previous one (the machine or the process stood still:
+// a paused VM, a starved scheduler) counts as patienceCap. A product that is
+// really wedged still exhausts the budget; a frozen sandbox does not.
+
+const (
+	patienceTick = 20 * time.Millisecond
+	patienceCap  = 60 * time.Millisecond
+)
+
+type patience struct {
+	left time.Duration
+	last time.Time
+}
+
+func newPatience(d time.Duration) *patience { return &patience{left: d, last: time.Now()} }
+
+// spent accounts the time since the previous call and reports whether the budget is used up.
+func (p *patience) spent() bool {
+	now := time.Now()
+	dt := now.Sub(p.last)
+	if dt > patienceCap {
+		dt = patienceCap
+		V.ExtraAdd("stalls_discounted", 1)
+	}
+	p.last = now
+	p.left -= dt
+	return p.left <= 0
+}
+
+// patientRecv receives from ch, giving up after d of running time.
+func patientRecv[T any](ch <-chan T, d time.Duration) (T, bool) {
+	v, ok, _ := patientRecvP(ch, newPatience(d), d+time.Hour)
+	return v, ok
+}
+
+// patientRecvP receives from ch against a budget shared by several waits: it
+// returns on a reception, after slice of running time (ok false), or when the
+// budget is used up (expired true).
+func patientRecvP[T any](ch <-chan T, p *patience, slice time.Duration) (v T, ok bool, expired bool) {
+	p.spent()
+	stop := p.left - slice
+	tick := time.NewTimer(patienceTick)
+	defer tick.Stop()
+	for {
+		select {
+		case v = <-ch:
+			p.spent()
+			return v, true, false
+		case <-tick.C:
+			if p.spent() {
+				return v, false, true
+			}
+			if p.left <= stop {
+				return v, false, false
+			}
+			tick.Reset(patienceTick)
+		}
+	}
+}
+
+// patientUntil polls cond (every step, at most patienceTick) until it holds or d of running time is spent.
+func patientUntil(d, step time.Duration, cond func() bool) bool {
+	p := newPatience(d)
+	if step > patienceTick {
+		step = patienceTick
+	}
+	for !cond() {
+		if p.spent() {
+			return cond()
+		}
+		time.Sleep(step)
+	}
+	return true
 }
